@@ -6,6 +6,7 @@ counts of users and proxies
 package main
 
 import (
+	"sync"
 	"sync/atomic"
 
 	"github.com/prometheus/client_golang/prometheus"
@@ -25,12 +26,17 @@ type roundedCounter struct {
 	total uint64 //reflects the true count
 	value uint64 //reflects the rounded count
 
+	// serializes Inc and Write, so that total and value change together
+	lock sync.Mutex
+
 	desc       *prometheus.Desc
 	labelPairs []*dto.LabelPair
 }
 
 // Implements the RoundedCounter interface
 func (c *roundedCounter) Inc() {
+	c.lock.Lock()
+	defer c.lock.Unlock()
 	atomic.AddUint64(&c.total, 1)
 	if c.total > c.value {
 		atomic.AddUint64(&c.value, 8)
@@ -46,7 +52,10 @@ func (c *roundedCounter) Desc() *prometheus.Desc {
 func (c *roundedCounter) Write(m *dto.Metric) error {
 	m.Label = c.labelPairs
 
-	m.Counter = &dto.Counter{Value: proto.Float64(float64(c.value))}
+	c.lock.Lock()
+	value := c.value
+	c.lock.Unlock()
+	m.Counter = &dto.Counter{Value: proto.Float64(float64(value))}
 	return nil
 }
 
